@@ -21,7 +21,7 @@ import asyncio, base64, sys, types
 
 from scrapli.exceptions import ScrapliAuthenticationFailed, ScrapliConnectionNotOpened
 
-BITS = ("strict", "hasKey", "keyLoads", "hasPw", "hasUser", "kexOK", "accKey", "accPw")
+BITS = ("strict", "hasKey", "keyLoads", "hasPw", "hasUser", "kexOK", "accKey", "accPw", "userUnpins")
 
 
 def exc_name(e):
@@ -42,17 +42,25 @@ class Rec:
 
 
 def _wrap_known_hosts(mod, rec):
-    real = mod.SSHKnownHosts
+    """record every known_hosts lookup, HOWEVER the transport gets hold of the SSHKnownHosts object (constructed in place,
+    through a factory, cached …): the `lookup` method of the class itself is wrapped; the real parser / lookup run.
+    -> the original function, for _restore_known_hosts"""
+    import scrapli.ssh_config as SC
+    orig = SC.SSHKnownHosts.lookup
 
-    class RecordingKnownHosts(real):  # the real parser / lookup, plus a record of each lookup
-        def lookup(self, host):
-            r = super().lookup(host)
-            found = bool(r)
-            equal = found and r.get("public_key") == rec.server_b64
-            rec(f"lookup:{int(found)}:{int(equal)}")
-            return r
-    mod.SSHKnownHosts = RecordingKnownHosts
-    return real
+    def lookup(self, host):
+        r = orig(self, host)
+        found = bool(r)
+        equal = found and r.get("public_key") == rec.server_b64
+        rec(f"lookup:{int(found)}:{int(equal)}")
+        return r
+    SC.SSHKnownHosts.lookup = lookup
+    return orig
+
+
+def _restore_known_hosts(orig):
+    import scrapli.ssh_config as SC
+    SC.SSHKnownHosts.lookup = orig
 
 
 def _wrap_verify(t, rec, full_names, presence_names=()):
@@ -133,6 +141,8 @@ def _begin(t, cfg, rec, att, kh):
     t.plugin_transport_args.auth_username = "bob" if cfg["hasUser"] else ""
     t.plugin_transport_args.auth_password = "pw" if cfg["hasPw"] else ""
     t.plugin_transport_args.auth_private_key = "/nonexistent/id_rsa" if cfg["hasKey"] else ""
+    # the user's transport options: asked to hand `known_hosts: None` to the ssh library
+    t._base_transport_args.transport_options = {"asyncssh": {"known_hosts": None}} if cfg.get("userUnpins") else {}
     rec.ev = pre
 
 
@@ -195,10 +205,15 @@ def history_paramiko(attempts, kh, host, server_b64, server_key_type="ssh-ed2551
     M._ParamikoTransport, M.RSAKey = FakeSession, FakeRSAKey
     out = []
     try:
-        t = M.ParamikoTransport(_base_args(host), M.PluginTransportArgs(**_plugin_kwargs(cfg, kh)))
-        t.socket = _Sock()
-        _wrap_verify(t, rec, ("_verify_key",))
+        def make():
+            t = M.ParamikoTransport(_base_args(host), M.PluginTransportArgs(**_plugin_kwargs(cfg, kh)))
+            t.socket = _Sock()
+            _wrap_verify(t, rec, ("_verify_key",))
+            return t
+        t = make()
         for att in attempts:
+            if att.get("new"):
+                t = make()       # a NEW transport object in the same process, same known_hosts path
             _begin(t, cfg, rec, att, kh)
             if t.socket is None:
                 t.socket = _Sock()
@@ -209,7 +224,7 @@ def history_paramiko(attempts, kh, host, server_b64, server_key_type="ssh-ed2551
             out.append((list(rec.ev), getattr(t, "session", None) is not None))
     finally:
         M._ParamikoTransport, M.RSAKey = saved
-        M.SSHKnownHosts = real_kh
+        _restore_known_hosts(real_kh)
     return out
 
 
@@ -283,12 +298,21 @@ async def history_asyncssh_async(attempts, kh, host, server_b64, server_key_type
         base = _base_args(host, port)
         if transport_options:
             base.transport_options = transport_options
-        t = M.AsyncsshTransport(base, M.PluginTransportArgs(**_plugin_kwargs(cfg, kh)))
         full = tuple(n for n in ("_verify_key", "_verify_key_value") if _compares_value(M.AsyncsshTransport, n))
         pres = tuple(n for n in ("_verify_key", "_verify_key_value") if n not in full)
-        _wrap_verify(t, rec, full, pres)
+
+        def make():
+            b2 = _base_args(host, port)
+            t = M.AsyncsshTransport(b2, M.PluginTransportArgs(**_plugin_kwargs(cfg, kh)))
+            _wrap_verify(t, rec, full, pres)
+            return t
+        t = make()
         for att in attempts:
+            if att.get("new"):
+                t = make()
             _begin(t, cfg, rec, att, kh)
+            if transport_options:
+                t._base_transport_args.transport_options = transport_options
             try:
                 await t.open()
             except Exception as e:
@@ -296,7 +320,7 @@ async def history_asyncssh_async(attempts, kh, host, server_b64, server_key_type
             out.append((list(rec.ev), getattr(t, "session", None) is not None))
     finally:
         M.connect = saved
-        M.SSHKnownHosts = real_kh
+        _restore_known_hosts(real_kh)
     return out, dict(seen_kwargs)
 
 
@@ -404,10 +428,15 @@ def history_ssh2(attempts, kh, host, server_b64):
     real_kh = _wrap_known_hosts(M, rec)
     out = []
     try:
-        t = M.Ssh2Transport(_base_args(host), M.PluginTransportArgs(**_plugin_kwargs(cfg, kh)))
-        t.socket = _Sock()
-        _wrap_verify(t, rec, ("_verify_key",))
+        def make():
+            t = M.Ssh2Transport(_base_args(host), M.PluginTransportArgs(**_plugin_kwargs(cfg, kh)))
+            t.socket = _Sock()
+            _wrap_verify(t, rec, ("_verify_key",))
+            return t
+        t = make()
         for att in attempts:
+            if att.get("new"):
+                t = make()
             _begin(t, cfg, rec, att, kh)
             if t.socket is None:
                 t.socket = _Sock()
@@ -417,7 +446,7 @@ def history_ssh2(attempts, kh, host, server_b64):
                 rec(exc_name(e))
             out.append((list(rec.ev), getattr(t, "session", None) is not None))
     finally:
-        M.SSHKnownHosts = real_kh
+        _restore_known_hosts(real_kh)
     return out
 
 
